@@ -146,7 +146,7 @@ BAD_VALUES = {
     "--scale": ["abc", "", "1,2"],
     "--filter-time": ["abc", "-1", "1.5", "", "99999999999999999999999"],
     "--max-range": ["abc", "", "km"],
-    "--locations": ["abc", "(a,1.0)", "(a)", "()", "", "(a,b,c)", "(a,1.0,x)", "a,1.0", ",", "((", "(a,,)"],
+    "--locations": ["abc", "(a,1.0)", "(a)", "()", "", "(a,b,c)", "(a,1.0,x)", "a,1.0", ",", "((", "(a,,)", "(", ")", "(home,52.1,4.3°", "°", "(é", "(a,1.0,2.0,3.0)", "(,,", "(a,1e999x,2)", "(a, ,)"],
 }
 
 
@@ -245,7 +245,7 @@ def worker(args):
         "locations": st.one_of(st.none(), st.just(["(home,52.1,4.2)"]), st.just(["(a,51.0,3.0)", "(b,53.5,6.5)"])),
         "scale": st.one_of(st.none(), st.sampled_from([0.12, 0.01, 5.0, 1e-9, 1e9, 0.0, -1.0])),
     })
-    cli = st.fixed_dictionaries({"cli": st.just(True), "opt": st.sampled_from(sorted(BAD_VALUES)), "val": st.integers(0, 11), "extra_location": st.booleans()})
+    cli = st.fixed_dictionaries({"cli": st.just(True), "opt": st.sampled_from(sorted(BAD_VALUES) + ["--locations", "--locations"]), "val": st.integers(0, 19), "extra_location": st.booleans()})
     case_s = st.one_of(session, session, session, cli)
 
     @seed(args.seed * 1000 + 17 * 7 + args.worker)
